@@ -7,7 +7,7 @@ from concurrent.futures import ProcessPoolExecutor
 from lib import common, play, stories
 
 LEVEL = "proof"
-THEOREM_MODULES = ["Proofs.C09", "Proofs.C09Load"]
+THEOREM_MODULES = ["Proofs.C09", "Proofs.C09Load", "Proofs.Guards"]
 REQUIRED_THEOREMS = [
     "Ink.C09.continueInternal_rejected", "Ink.C09.continueAsync_rejected", "Ink.C09.cont_rejected",
     "Ink.C09.continueAsync_rejected_state", "Ink.C09.validate_cases", "Ink.C09.currentChoices_state",
@@ -17,7 +17,9 @@ REQUIRED_THEOREMS = [
     "Ink.C09.choosePathString_bad_argument", "Ink.C09.removeFlow_default", "Ink.C09.bindExternal_twice",
     "Ink.C09.unbindExternal_missing", "Ink.C09.async_refuses",
     # witness of the known finding C09-partial-load (negation, concrete) and its early-field counterpart
-    "Ink.C09.loadState_rejected_not_atomic", "Ink.C09.loadState_rejected_early_keeps_flow"]
+    "Ink.C09.loadState_rejected_not_atomic", "Ink.C09.loadState_rejected_early_keeps_flow",
+    # the async guards of the model = the guards of the Rust source (translators/guards.py, every run)
+    "Ink.Guards.model_guards", "Ink.Guards.unguarded_reviewed"]
 RULE = ("a case = one story x one valid host history (random walk with saves, observers, flows) x invalid calls of "
         "every kind injected at random positions; non-trivial when at least one injected call lands at a choice "
         "point or mid-story (not only at the end); distinct by hash of the injected script")
